@@ -356,6 +356,10 @@ func Find(logger logger.Logger, start, stop string) (string, error) {
 	}
 
 	for {
+		if isAbove(start, stop) {
+			// Nothing above 'stop' is ever looked into, also when the search did not begin below it
+			return "", errors.New("No spokfile found")
+		}
 		logger.Debug("Looking in %s for spokfile", start)
 		entries, err := os.ReadDir(start)
 		if err != nil {
@@ -381,6 +385,16 @@ func Find(logger logger.Logger, start, stop string) (string, error) {
 		}
 		start = parent
 	}
+}
+
+// isAbove reports whether the directory dir lies above the directory below, i.e. contains it
+// without being it. Both paths must be absolute and clean.
+func isAbove(dir, below string) bool {
+	rel, err := filepath.Rel(dir, below)
+	if err != nil || rel == "." {
+		return false
+	}
+	return rel != ".." && !strings.HasPrefix(rel, ".."+string(filepath.Separator))
 }
 
 // isRegularFile reports whether path is (or, through symbolic links, leads to) a regular file:
